@@ -77,6 +77,8 @@ def _prog_oracle(c):
     a = c02.run_mode(c, mode, True, limit=3000)
     b = c02.run_mode(c, mode, True, limit=3000, nocache=True)
     fa, fb = a["fault"], b["fault"]
+    if (fa and "byteoff" in fa) or (fb and "byteoff" in fb):
+        return []          # an access that crosses a word: rejected by the cache, accepted by flat memory — outside "programs that use aligned accesses"
     if (fa is None) != (fb is None):
         # a cache may reject what flat memory accepts only for accesses that cross a word (the generators here emit none)
         return [Failure("oracle", PROP, f"with the data cache the program {'faults: ' + fa[:80] if fa else 'runs through'}, without it {'faults: ' + fb[:80] if fb else 'runs through'} ({mode})", "dcache-prog:fault-differs")]
